@@ -587,10 +587,11 @@ def flatten_z(E, a):
         return out
     if a.ty == "fn":
         return [atom("fn:" + str(a.py))]
-    out = [a.z]
-    if a.none is not None:
-        out.append(z3.If(a.none, 1, 0))
-    return out
+    if a.ty in ("int", "real", "bool"):
+        # scalars always travel with their None flag so that the arity of a formatting function does not depend on
+        # whether the value is statically known to be present
+        return [a.z, z3.If(a.none, 1, 0) if a.none is not None else z3.IntVal(0)]
+    return [a.z]
 
 
 def percent_format(E, e):
@@ -626,6 +627,11 @@ def list_extend(E, dst, src):
     if t[0] == "tuple" or (src.items is not None):
         for it in E.tuple_items(src):
             E.list_append(dst, it)
+        return
+    ln = z3.simplify(E.hread("len", I, src.z))
+    if z3.is_int_value(ln) and ln.as_long() <= 16 and not st.spec:
+        for k in range(ln.as_long()):
+            E.list_append(dst, E.list_get(src, z3.IntVal(k), check=False))
         return
     if E.full_ty(dst)[1] is None:
         E.refine(dst, ("list", E.elem_ty(src)))
@@ -1298,6 +1304,7 @@ def call_by_contract(E, c, fn, mod, selfv, args, kwargs, node):
                 st.pc.append(E.spec(spec[key], old=True))
         for post in spec.get("ensures", []):
             st.pc.append(E.spec(post))
+        E.prune()
         raise RaiseEx(canon_class(E, name), exc, node)
     finally:
         st.vars = saved_vars
@@ -1318,6 +1325,17 @@ def external_call(E, name, ext, e, recv=None, args=None, kwargs=None):
         args, kwargs = eval_args(E, e)
     if ext.get("drop"):
         return NONE
+    if ext.get("params"):
+        # normalise positional/keyword/default arguments to a fixed positional list
+        norm = []
+        for k_, (pn, dflt) in enumerate(ext["params"]):
+            if k_ < len(args):
+                norm.append(args[k_])
+            elif pn in kwargs:
+                norm.append(kwargs.pop(pn))
+            else:
+                norm.append(E.ev(ast.Constant(dflt)))
+        args = norm
     if st.spec and not ext.get("pure"):
         raise OutOfSubset(f"external {name} in spec")
     if st.pure and not ext.get("pure"):
@@ -1347,6 +1365,8 @@ def external_call(E, name, ext, e, recv=None, args=None, kwargs=None):
         env2["exc"] = exc
         for r in oc.get("ensures", []):
             st.pc.append(E.spec(r, extra=env2))
+        if oc.get("ensures"):
+            E.prune()
         raise RaiseEx(cls, exc, e)
     if ext.get("uf"):
         zs = []
@@ -1365,6 +1385,8 @@ def external_call(E, name, ext, e, recv=None, args=None, kwargs=None):
     env2["result"] = res
     for r in oc.get("ensures", []):
         st.pc.append(E.spec(r, extra=env2))
+    if outcomes and oc.get("ensures"):
+        E.prune()
     if oc.get("tag"):
         st.vars["$tag:" + oc["tag"]] = vbool(True)
     return res
@@ -1440,6 +1462,10 @@ def py_builtin(E, name, e):
         raise OutOfSubset(f"float({v.ty})")
     if name == "int":
         v = args[0]
+        if v.ty in ("int", "real", "bool") and v.none is not None:
+            if E.c.safety and not st.spec:
+                E.oblige("none-arith", z3.Not(v.none), U(e))  # int(None) raises TypeError
+            v = V(v.ty, v.z)
         if v.ty == "int":
             return v
         if v.ty == "bool":
@@ -1572,7 +1598,43 @@ def subclasses(E, cname):
 
 
 def minmax_list(E, name, args, kwargs, e):
-    raise OutOfSubset(f"{name} over a sequence / with key (declare an external)")
+    """min(list, key=f) / max(list): the result is an element that minimises/maximises the key"""
+    st = E.st
+    if len(args) != 1:
+        raise OutOfSubset(f"{name} with key over several arguments")
+    lst = args[0]
+    t = E.full_ty(lst)
+    if not (isinstance(t, tuple) and t[0] == "list"):
+        raise OutOfSubset(f"{name} over {t}")
+    ety = E.elem_ty(lst)
+    if ety not in ("int", "real"):
+        raise OutOfSubset(f"{name} over list of {ety}")
+    n = E.len_of(lst)
+    if E.c.safety and not st.spec:
+        E.oblige("nonempty", n > 0, U(e))
+    arr = E.hread(E.el_name(ety), z3.ArraySort(I, sort_of(ety)), lst.z)
+    res = V(ety, fresh(name, sort_of(ety)))
+    j = z3.Int(f"j!mm{next(_cnt)}")
+    st.pc.append(z3.Exists([j], z3.And(0 <= j, j < n, arr[j] == res.z)))
+    keyf = kwargs.get("key")
+
+    def key(v):
+        if keyf is None:
+            return v
+        return call_function(E, keyf, [v], {}, e)
+
+    st.bound.append(j)
+    st.pure += 1
+    try:
+        kr, kj = key(res), key(V(ety, arr[j]))
+        cmp_ = E.compare("LtE" if name == "min" else "GtE", kr, kj)
+    except NeedFork:
+        raise OutOfSubset(f"{name}: key function needs a fork")
+    finally:
+        st.pure -= 1
+        st.bound.pop()
+    st.pc.append(z3.ForAll([j], z3.Implies(z3.And(0 <= j, j < n), cmp_)))
+    return res
 
 
 def sum_list(E, args, e):
@@ -1609,6 +1671,21 @@ def container_method(E, recv, name, e):
             r = E.alloc_list(E.elem_ty(recv))
             list_extend(E, r, recv)
             return r
+        if name == "sort" and not args and not kwargs:
+            # in-place sort: the new content is a sorted rearrangement (same length, same set of values)
+            ety = E.elem_ty(recv)
+            if ety not in ("int", "real"):
+                raise OutOfSubset("sort of non-numeric list")
+            s_ = sort_of(ety)
+            n = E.len_of(recv)
+            old = E.hread(E.el_name(ety), z3.ArraySort(I, s_), recv.z)
+            new = fresh("sorted", z3.ArraySort(I, s_))
+            a, b = z3.Int(f"a!s{next(_cnt)}"), z3.Int(f"b!s{next(_cnt)}")
+            st.pc.append(z3.ForAll([a], z3.Implies(z3.And(0 <= a, a < n), z3.Exists([b], z3.And(0 <= b, b < n, new[a] == old[b])))))
+            st.pc.append(z3.ForAll([a], z3.Implies(z3.And(0 <= a, a < n), z3.Exists([b], z3.And(0 <= b, b < n, old[a] == new[b])))))
+            st.pc.append(z3.ForAll([a, b], z3.Implies(z3.And(0 <= a, a <= b, b < n), new[a] <= new[b])))
+            E.hwrite(E.el_name(ety), z3.ArraySort(I, s_), recv.z, new, "list-sort")
+            return NONE
         raise OutOfSubset(f"list.{name}")
     if isinstance(t, tuple) and t[0] == "dict":
         if name == "get":
